@@ -275,6 +275,8 @@ pub struct Env {
     pub soft: Option<(String, String)>,
     /// the run judges call-form agreement (C15): steps that embed a one-directional form rule report through `violation`
     pub forms_oracle: bool,
+    /// the run judges ==/cmp against exact values (C05)
+    pub cmp_oracle: bool,
 }
 
 impl Env {
@@ -291,6 +293,7 @@ impl Env {
             violation: None,
             soft: None,
             forms_oracle: false,
+            cmp_oracle: false,
         }
     }
     pub fn reset(&mut self) {
